@@ -12,7 +12,8 @@ package main
 //
 //  1. ties to the Lean side: the harness runs tools/factgen on the tree under test and asks the driver whether
 //     the facts it was compiled with are those (`facts`), whether all pairs are consistent / listed (`guards`),
-//     and whether every finding class probed below is listed in the expectation table (`known <token>`);
+//     and whether a guard-level finding class is listed in the expectation table exactly while its witness still
+//     fails to build (`known <token>`);
 //  2. probes: one witness grammar per known class of build failures (guard-level findings of the obligation and
 //     symbol-name collisions). A class whose witness still fails to build is reported once with its stable token
 //     and the random stream stays away from exactly that class; a class whose witness builds is exercised by the
@@ -1009,6 +1010,16 @@ func c17(c *Ctx) {
 	}
 	pb.close()
 	c.Extra["classes_present"] = sortedBoolKeys(avoid)
+	// guard-level classes: listed in the Lean expectation table exactly while the witness still fails to build
+	for _, cl := range c17Classes {
+		if cl.Guard {
+			want := "unlisted"
+			if avoid[cl.Token] {
+				want = "listed"
+			}
+			c.Case("known "+cl.Token, want, "")
+		}
+	}
 
 	// ---- sweep
 	nBatches, perBatch := c.N(1, 6), c.N(44, 50)
@@ -1268,11 +1279,6 @@ func c17LeanTie(c *Ctx, repo string) {
 		}
 		if root != "" {
 			break
-		}
-	}
-	for _, cl := range c17Classes {
-		if cl.Guard {
-			c.Case("known "+cl.Token, "listed", "")
 		}
 	}
 	c.Case("guards", "inconsistent=0 duplicates=0 wellformed=1 tables=1", "guards")
